@@ -48,7 +48,7 @@ fn dir(rng: &mut Rng) -> &'static str {
 pub const KINDS: usize = 24;
 
 /// A well-formed frame of kind `k` in canonical text; `.1` = has a length-less form
-fn wf_frame(rng: &mut Rng, k: usize) -> (String, bool) {
+pub fn wf_frame(rng: &mut Rng, k: usize) -> (String, bool) {
     match k {
         0 => ("padding".into(), false),
         1 => ("ping".into(), false),
